@@ -77,11 +77,10 @@ let strs v = List.map as_cbytes (as_list v)
 let sort_uniq_strings (l : string list) : string list = List.sort_uniq compare l
 
 (* ---- pre-shared keys ----------------------------------------------------------------- *)
-let psk keys vals digests cls =
-  let keys = strs keys and vals = strs vals in
-  let digests = List.map as_bytes (as_list digests) in
-  let obs = as_int cls in
-  (* the OCaml SHA-256 agrees with crypto/sha256 on the configured keys *)
+(* verdict for one observed class.  When implementation and model differ, the property's own
+   predicate is evaluated on the implementation's answer: PROP if it contradicts the property
+   text, DIFF otherwise. *)
+let psk_eval (keys : n list list) (vals : n list list) (digests : string list) (obs : int) : string =
   let sha_ok = List.for_all2 (fun k d -> sha256 (coq_to_bytes k) = d) keys digests in
   if not sha_ok then "DIFF oracle sha256 differs from crypto/sha256 on a configured key" else
   match psk_new model_h keys with
@@ -89,8 +88,6 @@ let psk keys vals digests cls =
   | Some hs ->
     if obs = 7 then "DIFF constructor model=accept impl=refuse" else
     let m = int_of_n (psk_class (psk_authenticate model_h hs vals)) in
-    if m <> obs then Printf.sprintf "DIFF class model=%d impl=%d" m obs else
-    (* the property: accepted exactly when the bearer token is one of the configured keys *)
     let tok = match auth_from_md vals with MdToken t -> Some t | _ -> None in
     let inj = match tok with
       | None -> true
@@ -100,11 +97,18 @@ let psk keys vals digests cls =
           (coq_to_bytes a = coq_to_bytes b) || (sha256 (coq_to_bytes a) <> sha256 (coq_to_bytes b))) all) all in
     if not inj then "DIFF sha256 collision among token and keys (hypothesis of psk_accept_iff fails)" else
     let should = match tok with Some t -> bmem t keys | None -> false in
-    if should <> (obs = 0) then
-      Printf.sprintf "PROP accepted=%s but bearer-token-in-keys=%s" (b2s (obs = 0)) (b2s should)
+    let tokhex = match tok with Some t -> cs t | None -> "-" in
+    if (obs = 0) && not should then
+      Printf.sprintf "PROP accepted although the bearer token (x%s) is not one of the configured keys" tokhex
+    else if (obs <> 0) && should then
+      Printf.sprintf "PROP rejected (class %d) although the bearer token (x%s) is one of the configured keys" obs tokhex
     else if tok = None && obs <> 1 then
       Printf.sprintf "PROP no bearer token but class=%d" obs
+    else if m <> obs then Printf.sprintf "DIFF class model=%d impl=%d" m obs
     else "OK"
+
+let psk keys vals digests cls =
+  psk_eval (strs keys) (strs vals) (List.map as_bytes (as_list digests)) (as_int cls)
 
 (* ---- OIDC ---------------------------------------------------------------------------- *)
 let jv_of (v : value) : jv =
@@ -132,63 +136,163 @@ let token_of (v : value) : token =
     TokParsed (alg, kid, claims)
   | _ -> failwith "bad token"
 
-let oidc main aliases aud subjects cic now vals table cls osub ocid oscopes =
-  let obs = as_int cls in
-  let table = List.map (fun e -> match as_list e with
-    | [s; t] -> (as_bytes s, token_of t) | _ -> failwith "bad table") (as_list table) in
-  let parse (t : n list) : token =
-    match List.assoc_opt (coq_to_bytes t) table with Some tk -> tk | None -> TokMalformed in
-  (* header values are written around the first table token: (1 before after) | (0 value) *)
+let table_of (v : value) : (string * token) list =
+  List.map (fun e -> match as_list e with
+    | [s; t] -> (as_bytes s, token_of t) | _ -> failwith "bad table") (as_list v)
+
+let parse_of (table : (string * token) list) (t : n list) : token =
+  match List.assoc_opt (coq_to_bytes t) table with Some tk -> tk | None -> TokMalformed
+
+(* header values are written around the first table token: (1 before after) | (0 value) *)
+let vals_of (table : (string * token) list) (v : value) : n list list =
   let tok0 = match table with (s, _) :: _ -> s | [] -> "" in
-  let vals = List.map (fun v -> match as_list v with
+  List.map (fun v -> match as_list v with
     | [k; s] when as_int k = 0 -> as_cbytes s
     | [k; a; b] when as_int k = 1 -> bytes_to_coq (as_bytes a ^ tok0 ^ as_bytes b)
-    | _ -> failwith "bad header value") (as_list vals) in
-  let now = z_of_dec (as_dec now) in
-  match oidc_new (as_cbytes main) (strs aliases) (as_cbytes aud) (strs subjects) (strs cic) with
-  | None -> if obs = 7 then "OK" else Printf.sprintf "DIFF constructor model=refuse impl=%d" obs
-  | Some cfg ->
-    if obs = 7 then "DIFF constructor model=accept impl=refuse" else
-    let out = oidc_authenticate parse cfg now vals in
-    let m = int_of_n (oidc_class out) in
-    if m <> obs then Printf.sprintf "DIFF class model=%d impl=%d" m obs else
-    let principal_diff = match out with
-      | OAccept p ->
-        let ms = cs p.p_subject and mc = cs p.p_client_id in
-        let msc = sort_uniq_strings (List.map cs p.p_scopes) in
-        let isc = sort_uniq_strings (List.map (fun v -> hex_of_string (as_bytes v)) (as_list oscopes)) in
-        let is = hex_of_string (as_bytes osub) and ic = hex_of_string (as_bytes ocid) in
+    | _ -> failwith "bad header value") (as_list v)
+
+let missing_fields (v : validity) : string =
+  String.concat "," (List.filter_map (fun (name, ok) -> if ok then None else Some name)
+    [ ("bearer-header", v.vy_bearer); ("well-formed", v.vy_wellformed); ("alg=RS256", v.vy_alg);
+      ("key-in-JWKS", v.vy_key); ("signature", v.vy_sig); ("exp-present-and-not-passed", v.vy_exp);
+      ("iat-not-in-future", v.vy_iat); ("audience", v.vy_aud); ("issuer-or-alias", v.vy_iss);
+      ("allowed-subject", v.vy_sub) ])
+
+(* the property's own predicate applied to an observed class *)
+let oidc_prop (cfg : oidc_cfg) (v : validity) (obs : int) : string =
+  let acc = (obs = 0) in
+  let lit = property_literal v in
+  if acc && not lit then begin
+    if flag_empty_alias v then
+      Printf.sprintf "KNOWN empty_alias_disables_issuer_check accepted with iss outside main+aliases%s"
+        (if flag_empty_subject v then " (and sub outside the configured subjects)" else "")
+    else if flag_empty_subject v then
+      "KNOWN empty_subject_disables_subject_check accepted with sub outside the configured subjects"
+    else "PROP accepted although the property requires: " ^ missing_fields v
+  end
+  else if (not acc) && lit && extra_ok v then
+    Printf.sprintf "PROP rejected (class %d) although everything the property requires (and nbf / sub-type) holds" obs
+  else if acc && not (no_empty_entries cfg) && not (v.vy_iss_wild || v.vy_sub_wild) then
+    "DIFF no_empty_entries inconsistent"
+  else "OK"
+
+let is_prefix p s = String.length s >= String.length p && String.sub s 0 (String.length p) = p
+
+(* verdict for one observed answer given the model's outcome for that call *)
+let oidc_eval (cfg : oidc_cfg) (out : oidc_outcome) (v : validity) (obs : int)
+    (principal : (string * string * string list) option) : string =
+  let m = int_of_n (oidc_class out) in
+  if not (cfg_wf cfg) then "DIFF configuration accepted by the constructor is not cfg_wf" else
+  if decide v <> accepted out then "DIFF decision table disagrees with oidc_authenticate" else
+  let p = oidc_prop cfg v obs in
+  if m <> obs then
+    (if is_prefix "PROP" p then p else Printf.sprintf "DIFF class model=%d impl=%d" m obs)
+  else
+    let principal_diff = match out, principal with
+      | OAccept pr, Some (is, ic, isc) ->
+        let ms = cs pr.p_subject and mc = cs pr.p_client_id in
+        let msc = sort_uniq_strings (List.map cs pr.p_scopes) in
+        let isc = sort_uniq_strings isc in
         if ms <> is then Some (Printf.sprintf "subject model=%s impl=%s" ms is)
         else if mc <> ic then Some (Printf.sprintf "client_id model=%s impl=%s" mc ic)
         else if msc <> isc then Some (Printf.sprintf "scopes model=[%s] impl=[%s]" (String.concat "," msc) (String.concat "," isc))
         else None
       | _ -> None in
-    (match principal_diff with Some d -> "DIFF " ^ d | None ->
-    let v = validity_of parse cfg now vals in
-    let acc = (obs = 0) in
-    if not (cfg_wf cfg) then "DIFF configuration accepted by the constructor is not cfg_wf" else
-    if decide v <> accepted out then "DIFF decision table disagrees with oidc_authenticate" else
-    let lit = property_literal v in
-    if acc && not lit then begin
-      (* accepted although the property text forbids it: only the two listed triggers *)
-      if flag_empty_alias v then
-        Printf.sprintf "KNOWN empty_alias_disables_issuer_check accepted with iss outside main+aliases%s"
-          (if flag_empty_subject v then " (and sub outside the configured subjects)" else "")
-      else if flag_empty_subject v then
-        "KNOWN empty_subject_disables_subject_check accepted with sub outside the configured subjects"
-      else "PROP accepted although the property predicate is false"
-    end
-    else if (not acc) && lit && extra_ok v then
-      "PROP rejected although the property predicate (and nbf/sub-type conditions) hold"
-    else if acc && not (no_empty_entries cfg) && not (v.vy_iss_wild || v.vy_sub_wild) then
-      "DIFF no_empty_entries inconsistent"
-    else "OK")
+    match principal_diff with Some d -> "DIFF " ^ d | None -> p
+
+let principal_of osub ocid oscopes =
+  (hex_of_string (as_bytes osub), hex_of_string (as_bytes ocid),
+   List.map (fun v -> hex_of_string (as_bytes v)) (as_list oscopes))
+
+let oidc main aliases aud subjects cic now vals table cls osub ocid oscopes =
+  let obs = as_int cls in
+  let table = table_of table in
+  let parse = parse_of table in
+  let vals = vals_of table vals in
+  let now = z_of_dec (as_dec now) in
+  match oidc_new (as_cbytes main) (strs aliases) (as_cbytes aud) (strs subjects) (strs cic) with
+  | None -> if obs = 7 then "OK" else Printf.sprintf "DIFF constructor model=refuse impl=%d" obs
+  | Some cfg ->
+    if obs = 7 then "DIFF constructor model=accept impl=refuse" else
+    oidc_eval cfg (oidc_authenticate parse cfg now vals) (validity_of parse cfg now vals) obs
+      (Some (principal_of osub ocid oscopes))
+
+(* ---- histories ------------------------------------------------------------------------ *)
+(* worst verdict of a list: PROP > DIFF > KNOWN > OK *)
+let worst (vs : string list) : string =
+  let find p = List.find_opt (is_prefix p) vs in
+  match find "PROP" with Some v -> v | None ->
+  match find "DIFF" with Some v -> v | None ->
+  match find "KNOWN" with Some v -> v | None -> "OK"
+
+let tag_step i who v =
+  if v = "OK" then v else
+  let kind, rest = (match String.index_opt v ' ' with
+    | Some j -> (String.sub v 0 j, String.sub v j (String.length v - j)) | None -> (v, "")) in
+  if kind = "KNOWN" then v else Printf.sprintf "%s step %d (%s):%s" kind i who rest
+
+(* one authenticator + one AuthFunc instance, a sequence of presentations.  The model's answers
+   are those of oidc_run (= the single-call answers, theorem c27_oidc_stateless); every observed
+   answer (persistent middleware, persistent Authenticate, fresh instance) is judged against
+   them, and a persistent answer that differs from the fresh instance's is a PROP failure. *)
+let oidc_hist main aliases aud subjects cic steps =
+  match oidc_new (as_cbytes main) (strs aliases) (as_cbytes aud) (strs subjects) (strs cic) with
+  | None -> "DIFF history on a refused configuration"
+  | Some cfg ->
+    let steps = List.map (fun st -> match as_list st with
+      | [now; vals; table; amb; mw; cd; cfm; cfd] ->
+        let table = table_of table in
+        (z_of_dec (as_dec now), vals_of table vals, table, as_bool amb, as_list mw, as_int cd, as_int cfm, as_int cfd)
+      | _ -> failwith "bad step") (as_list steps) in
+    let table = List.concat_map (fun (_, _, t, _, _, _, _, _) -> t) steps in
+    let parse = parse_of table in
+    let outs = oidc_run parse cfg (List.map (fun (now, vals, _, _, _, _, _, _) -> (now, vals)) steps) in
+    let verdicts = List.concat (List.mapi (fun i ((now, vals, _, amb, mw, cd, cfm, cfd), out) ->
+      if amb then [] else
+      let v = validity_of parse cfg now vals in
+      let (cm, pr) = (match mw with
+        | [c; s; ci; sc] -> (as_int c, Some (principal_of s ci sc)) | _ -> failwith "bad mw") in
+      let stateless =
+        if cm <> cfm then
+          [Printf.sprintf "PROP step %d: the long-lived middleware answered class %d, a fresh authenticator at the same time class %d (authn_stateless)" i cm cfm]
+        else if cd <> cfd then
+          [Printf.sprintf "PROP step %d: the long-lived authenticator answered class %d, a fresh one at the same time class %d (authn_stateless)" i cd cfd]
+        else [] in
+      [ tag_step i "middleware, long-lived" (oidc_eval cfg out v cm pr);
+        tag_step i "Authenticate, long-lived" (oidc_eval cfg out v cd None);
+        tag_step i "middleware, fresh" (oidc_eval cfg out v cfm None);
+        tag_step i "Authenticate, fresh" (oidc_eval cfg out v cfd None) ] @ stateless)
+      (List.combine steps outs)) in
+    worst verdicts
+
+let psk_hist steps =
+  let steps = List.map (fun st -> match as_list st with
+    | [keys; digests; vals; cm; cd; cf] ->
+      (strs keys, List.map as_bytes (as_list digests), strs vals, as_int cm, as_int cd, as_int cf)
+    | _ -> failwith "bad step") (as_list steps) in
+  let outs = psk_run model_h (List.map (fun (k, _, v, _, _, _) -> (k, v)) steps) in
+  let verdicts = List.concat (List.mapi (fun i ((keys, digests, vals, cm, cd, cf), out) ->
+    let m = (match out with None -> 7 | Some o -> int_of_n (psk_class o)) in
+    let single = (match psk_new model_h keys with
+      | None -> 7 | Some hs -> int_of_n (psk_class (psk_authenticate model_h hs vals))) in
+    (if m <> single then ["DIFF psk_run differs from the single-call answer"] else []) @
+    (if cm <> cf || cd <> cf then
+       [Printf.sprintf "PROP step %d: long-lived instance answered middleware=%d Authenticate=%d, a fresh instance %d (authn_stateless)" i cm cd cf]
+     else []) @
+    [ tag_step i "middleware, long-lived" (psk_eval keys vals digests cm);
+      tag_step i "Authenticate, long-lived" (psk_eval keys vals digests cd);
+      tag_step i "fresh" (psk_eval keys vals digests cf) ])
+    (List.combine steps outs)) in
+  worst verdicts
 
 let f _id vs =
   match vs with
   | I "1" :: keys :: vals :: digests :: cls :: [] -> psk keys vals digests cls
   | I "2" :: main :: aliases :: aud :: subjects :: cic :: now :: vals :: table :: cls :: osub :: ocid :: oscopes :: [] ->
     oidc main aliases aud subjects cic now vals table cls osub ocid oscopes
+  | I "3" :: main :: aliases :: aud :: subjects :: cic :: steps :: [] ->
+    oidc_hist main aliases aud subjects cic steps
+  | I "4" :: steps :: [] -> psk_hist steps
   | _ -> "DIFF malformed-record"
 
 let () = run_oracle f
